@@ -212,6 +212,9 @@ impl TypedProgram {
         } else {
             None
         };
+        // the parameters are bound in a scope of their own, above the constants (a parameter may have the name of a
+        // constant, and the functions that are called see the constants only)
+        let mut param_bindings = Vec::with_capacity(fn_def.params.len());
         if let Some((param, elem_ty, size)) = single_array_as_multiple_parties {
             let mut wires = vec![];
             for _ in 0..*size {
@@ -222,7 +225,7 @@ impl TypedProgram {
                 }
                 input_gates.push(type_size);
             }
-            env.let_in_current_scope(param.name.clone(), wires);
+            param_bindings.push((param.name.clone(), wires));
         } else {
             for param in fn_def.params.iter() {
                 let type_size = param.ty.size_in_bits_for_defs(self, &const_sizes);
@@ -232,7 +235,7 @@ impl TypedProgram {
                     wire += 1;
                 }
                 input_gates.push(type_size);
-                env.let_in_current_scope(param.name.clone(), wires);
+                param_bindings.push((param.name.clone(), wires));
             }
         }
         let builder_opts = CircuitBuilderOptions {
@@ -334,6 +337,10 @@ impl TypedProgram {
                     }
                 }
             }
+        }
+        env.push();
+        for (name, wires) in param_bindings {
+            env.let_in_current_scope(name, wires);
         }
         let output_gates = compile_block(&fn_def.body, self, &mut env, &mut circuit);
         Ok((circuit.build(output_gates), fn_def, const_sizes))
@@ -1175,13 +1182,14 @@ impl TypedExpr {
                     bindings.push((param.name.clone(), arg));
                     env.pop();
                 }
-                env.push();
+                // the body of the called function sees the constants (the outermost scope) and its parameters, not the
+                // variables of the caller
+                let mut callee_env = Env(vec![env.0[0].clone()]);
+                callee_env.push();
                 for (var, binding) in bindings {
-                    env.let_in_current_scope(var.clone(), binding);
+                    callee_env.let_in_current_scope(var.clone(), binding);
                 }
-                let body = compile_block(&fn_def.body, prg, env, circuit);
-                env.pop();
-                body
+                compile_block(&fn_def.body, prg, &mut callee_env, circuit)
             }
             ExprEnum::BuiltInFnCall(BuiltInFnCall::Join {
                 join_ty,
